@@ -63,6 +63,9 @@ Conforms(a, v) ==
     \* parametrised type aliases unfold with their argument: haiway.frozenlist[x] = tuple[x, ...];  Pair[x] = tuple[x, x]
     [] a.k = "flist"   -> Conforms([k |-> "vtuple", xs |-> a.xs, vs |-> <<>>], v)
     [] a.k = "pair"    -> Conforms([k |-> "tuple", xs |-> <<a.xs[1], a.xs[1]>>, vs |-> <<>>], v)
+    \* Swapped[x, y] where  type Swapped[A, B] = Pair2[B, A]  and  type Pair2[A, B] = tuple[A, B]:  tuple[y, x]
+    \* (the inner alias is given the outer alias's parameters in the other order - same names, other positions)
+    [] a.k = "swap"    -> Conforms([k |-> "tuple", xs |-> <<a.xs[2], a.xs[1]>>, vs |-> <<>>], v)
     [] OTHER -> FALSE
 
 (* where the documentation / typing rules and the library's practice may legitimately differ:
@@ -93,6 +96,7 @@ Contested(a, v) ==
     [] a.k = "alias" -> Contested(a.xs[1], v)
     [] a.k = "flist" -> Contested([k |-> "vtuple", xs |-> a.xs, vs |-> <<>>], v)
     [] a.k = "pair"  -> Contested([k |-> "tuple", xs |-> <<a.xs[1], a.xs[1]>>, vs |-> <<>>], v)
+    [] a.k = "swap"  -> Contested([k |-> "tuple", xs |-> <<a.xs[2], a.xs[1]>>, vs |-> <<>>], v)
     [] OTHER -> FALSE
 
 (* --------------------------- stored normal form --------------------------- *)
@@ -112,6 +116,7 @@ Norm(a, v) ==
     [] a.k = "alias" -> Norm(a.xs[1], v)
     [] a.k = "flist" -> Norm([k |-> "vtuple", xs |-> a.xs, vs |-> <<>>], v)
     [] a.k = "pair"  -> Norm([k |-> "tuple", xs |-> <<a.xs[1], a.xs[1]>>, vs |-> <<>>], v)
+    [] a.k = "swap"  -> Norm([k |-> "tuple", xs |-> <<a.xs[2], a.xs[1]>>, vs |-> <<>>], v)
     [] OTHER -> v
 
 (* --------------------------- bounded term sets --------------------------- *)
@@ -139,6 +144,7 @@ AnnLeaf == {A("none"), A("bool"), A("int"), A("float"), A("str"), A("bytes"), A(
 Small == {A("int"), A("str"), A("none"), A("bool")}
 AnnCont == {A1(k, x) : k \in {"seq", "set", "fset", "vtuple", "alias", "flist", "pair"}, x \in Small}
              \cup {A1("tuple", x) : x \in Small} \cup {A2("tuple", x, y) : x \in Small, y \in Small}
+             \cup {A2("swap", x, y) : x \in Small, y \in Small}
              \cup {A2("map", k, x) : k \in {A("str"), A("int")}, x \in Small}
              \cup {A2("union", x, y) : x \in Small \cup {A("missing")}, y \in Small \cup {A("float")}}
              \cup {A2("union", A("date"), A("none")), A2("union", A("callable"), A("none")), A1("seq", A("date")),
